@@ -29,6 +29,14 @@ template<> struct Elem<int> {
 };
 
 struct HRec { int fiber; long reg_step; bool alive; };
+// allocation faults are injected only inside push/emplace/erase calls (registration of a handle also allocates, but an exception from
+// there simply propagates to the client and is not what C12f is about)
+struct AllocFaultWindow {
+    bool prev = false;
+    AllocFaultWindow() { if (vrt::rt().cur) { prev = vrt::me().fault_window; vrt::me().fault_window = true; } }
+    ~AllocFaultWindow() { if (vrt::rt().cur) vrt::me().fault_window = prev; }
+    static void begin_case(const vh::Case& c) { vrt::rt().faults_need_window = c.sched.fault_k != 0 && (c.sched.fault_mask & vrt::F_ALLOC) && !(c.sched.fault_mask & vrt::F_COPY); }
+};
 struct ERec { const void* elem; long call_step; int value; };
 
 struct St {
@@ -42,6 +50,7 @@ struct St {
     long minkey = 0, maxkey = 0;
     std::map<int, long> push_call, push_ret, erase_call;
     std::set<int> erased_model;
+    std::set<int> maybe_erased;              // erase threw (allocation fault): presence afterwards is unspecified until a clean erase
     int cur_push_value[vrt::MAXF]; bool cur_push_front[vrt::MAXF];
     const void* paused_on[vrt::MAXF];
     bool lbl_dealloc_under_handle = false, lbl_paused_on_erased = false, lbl_trav_overlap = false, lbl_records_reclaimed = false, lbl_push_threw = false;
@@ -84,9 +93,8 @@ void on_acquire(vrt::MutexCore* core, int f, bool shared) {
     S->key[v] = S->cur_push_front[f] ? --S->minkey : ++S->maxkey;
 }
 
-template<class T>
+template<class T, class A = vrt::QAlloc<T>>
 vh::Outcome run_rcu(const vh::Case& c, Prop prop) {
-    using A = vrt::QAlloc<T>;
     using List = lg::rcu_list<T, vstd::mutex, A>;
     using G = lg::rcu_guarded<List>;
     using E = Elem<T>;
@@ -117,6 +125,7 @@ vh::Outcome run_rcu(const vh::Case& c, Prop prop) {
                 st.seqkey[v] = (kind % 2 == 0) ? --st.smin : ++st.smax;
                 st.mutations_in_flight++;
                 try {
+                    AllocFaultWindow fw;
                     switch (kind % 4) {
                         case 0: h->push_front(E::make(v)); break;
                         case 1: h->push_back(E::make(v)); break;
@@ -164,11 +173,14 @@ vh::Outcome run_rcu(const vh::Case& c, Prop prop) {
                     }
                 }
             };
-            // prefill
+            // prefill (never subject to the fault plan)
             {
+                vrt::rt().faults_off = true;
                 auto h = rl.lock_write();
                 for (int i = 0; i < prefill; ++i) do_push(h, 1, st.next_value++);
             }
+            vrt::rt().faults_off = false;
+            AllocFaultWindow::begin_case(c);
             for (size_t i = 0; i < c.fibers.size(); ++i) {
                 if (c.fibers[i].empty()) continue;
                 int vbase = 1000 * ((int)i + 1);
@@ -232,7 +244,18 @@ vh::Outcome run_rcu(const vh::Case& c, Prop prop) {
                                     bool first_erase = !st.erase_call.count(v);
                                     if (first_erase) { st.erase_call[v] = vrt::now_step(); st.erases.push_back(ERec{ea, vrt::now_step(), v}); }
                                     st.mutations_in_flight++;
-                                    auto nx = h->erase(it);
+                                    decltype(h->erase(it)) nx;
+                                    try { AllocFaultWindow fw; nx = h->erase(it); }
+                                    catch (const vrt::InjectedFault&) {
+                                        // allocation failure inside erase: the element may or may not have been removed, but a later erase that
+                                        // returns normally must leave it absent, and the write mutex must be free again
+                                        if (!c.sched.fault_k) vrt::fail("escaped-fault", "fault without a plan");
+                                        st.mutations_in_flight--; st.mutations_done++;
+                                        st.maybe_erased.insert(v);
+                                        if (vrt::me().held != 0) vrt::fail("lock-leaked-on-throw", "the list's write mutex is still held after erase threw");
+                                        st.handles[hi].alive = false;
+                                        continue;
+                                    }
                                     st.mutations_in_flight--; st.mutations_done++;
                                     erases_done++;
                                     st.erased_model.insert(v);
@@ -285,6 +308,7 @@ vh::Outcome run_rcu(const vh::Case& c, Prop prop) {
                 for (auto& pc : st.push_ret) if (!st.erased_model.count(pc.first)) expect.insert(pc.first);
                 std::set<int> got(fin.begin(), fin.end());
                 if (got.size() != fin.size()) vrt::fail("final-contents", "final list contains a value twice");
+                for (int v : st.maybe_erased) if (!st.erased_model.count(v)) { expect.erase(v); got.erase(v); }      // unspecified
                 if (got != expect) vrt::fail("final-contents", "final list contents differ from the sequential model (inserted minus erased)");
                 if (st.track_keys) {
                     long last = 0; bool first = true;
@@ -327,7 +351,8 @@ vh::Outcome run_rcu(const vh::Case& c, Prop prop) {
 }
 
 vh::Outcome dispatch13(const vh::Case& c) {
-    int t = c.cfg.empty() ? 0 : c.cfg[0] % 3;
+    int t = c.cfg.empty() ? 0 : c.cfg[0] % 4;
+    if (t == 3) { vh::Outcome o = run_rcu<Tracked, vrt::QAllocS<Tracked>>(c, P_C13); o.labels.push_back("stateful-allocator"); return o; }
     if (t == 0) return run_rcu<Tracked>(c, P_C13);
     if (t == 1) return run_rcu<std::string>(c, P_C13);
     return run_rcu<int>(c, P_C13);
@@ -337,7 +362,7 @@ vh::GenSpec spec(Prop p, bool thorough) {
     vh::GenSpec g;
     g.nfibers = p == P_C12S ? 1 : 4; g.max_ops = p == P_C12S ? (thorough ? 24 : 12) : (thorough ? 6 : 4);
     g.ncodes = 12; g.amax = 6; g.bmax = 8;
-    g.cfg_max = {3, 5};
+    g.cfg_max = {4, 5};
     g.sched_len = thorough ? 224 : 160; g.aux_len = 16;
     g.sequential = p == P_C12S;
     return g;
@@ -349,6 +374,10 @@ vh::Register r5("C05", spec(P_C05, false), spec(P_C05, true), [](const vh::Case&
 vh::Register r12("C12", spec(P_C12, false), spec(P_C12, true), [](const vh::Case& c) { return run_rcu<Tracked>(c, P_C12); },
                  "generated traversing readers x pushing/erasing writers x generated schedule; oracle = position-key monotonicity, stable elements visited, final contents vs model; "
                  "non-trivial = a full traversal overlapped at least one mutation");
+vh::GenSpec spec12f(bool th) { vh::GenSpec g = spec(P_C12, th); g.fault_max = 10; g.fault_mask = vrt::F_ALLOC; return g; }
+vh::Register r12f("C12f", spec12f(false), spec12f(true), [](const vh::Case& c) { return (!c.cfg.empty() && c.cfg[0] & 1) ? run_rcu<Tracked, vrt::QAllocS<Tracked>>(c, P_C12) : run_rcu<Tracked>(c, P_C12); },
+                  "as C12 with a fault plan over the list's allocations (node in push/emplace, retire record in erase): a throwing push leaves the list unchanged, after a throwing erase the element's presence "
+                  "is unspecified but a later erase that returns normally removes it, the write mutex is released; final contents still match a sequential execution");
 vh::Register r12s("C12s", spec(P_C12S, false), spec(P_C12S, true), [](const vh::Case& c) { return run_rcu<Tracked>(c, P_C12S); },
                   "generated sequential command sequences (push_front/back, emplace_front/back, erase k-th, traversal) compared with a reference list after every command; "
                   "non-trivial = at least one erase and one insertion");
